@@ -246,6 +246,26 @@ def run(rep, tier, prop="C10"):
         for name, kind, opts in case_list():
             n, fails = res[(tn, name)]
             rep.add(core.decided("%s/bounded/%s/%s" % (prop, name, tn), prop, not fails and n > 0, functions=(name.split("[")[0],), text="bounded stand-in: %s on %d directed operand tuples inside the documented domain" % (name, n), detail=dict(failures=fails, inputs=n), kind="bounded", solver="native-run", meta=dict(part="bounded", fails=fails, t=tn, case=name)))
+    # option combinations must at least return a pair (finite cases)
+    import functional_algorithms.floating_point_algorithms as FP
+    import functional_algorithms.utils as U
+
+    bad = []
+    for tn in TYPES:
+        t = getattr(numpy, tn)
+        ctx = U.NumpyContext(t)
+        for assume_fma in (False, True):
+            for fix in (False, True):
+                for scale in (False, True):
+                    try:
+                        with warnings.catch_warnings(), numpy.errstate(all="ignore"):
+                            warnings.simplefilter("ignore")
+                            r = FP.mul_dekker(ctx, t(1.5), t(2.5), scale=scale, fix_overflow=fix, assume_fma=assume_fma)
+                        if len(r) != 2 or F(r[0]) + F(r[1]) != F(t(1.5)) * F(t(2.5)):
+                            bad.append(dict(t=tn, assume_fma=assume_fma, fix_overflow=fix, scale=scale, got=[repr(v) for v in r]))
+                    except Exception as e:
+                        bad.append(dict(t=tn, assume_fma=assume_fma, fix_overflow=fix, scale=scale, raised=repr(e)[:160]))
+    rep.add(core.decided("%s/bounded/mul_dekker-option-combinations" % prop, prop, not bad, functions=("floating_point_algorithms.mul_dekker",), text="mul_dekker(1.5, 2.5) returns the exact pair for every combination of scale / fix_overflow / assume_fma", detail=dict(failures=bad[:4]), kind="bounded", solver="native-run", meta=dict(part="bounded", fails=bad[:4], t="-", case="mul_dekker-option-combinations")))
     rep.bounded.append(dict(what="every transformation of the check (incl. the traced copies of algorithms.py) executed natively: exact pair, high part correctly rounded, splitter halves fit", bound="%s directed operand tuples per case and format (seeded; exponent boundaries, few-bit significands, ties, cancellation), restricted to the documented domains" % per, counted_as_proved=False))
 
 
